@@ -105,6 +105,9 @@ func genEnv(r *Rng, g *gCmd, consistent bool, distinct bool, small bool) string 
 			case "readRest":
 				lens[s.F] = pick(80)
 			case "setPad":
+				if consistent {
+					s.E = pinnedRel(g.Name, "padLen", s.E) // the documented starting point of the padding length
+				}
 				pad = evalG(s.E, ints, lens, pad)
 			case "padRoundUp":
 				if pad%2 == 1 {
